@@ -273,6 +273,9 @@ class C13(runner.Check):
 				qs = [r.randint(0, nP - 1) for _ in range(n)]
 			if redundant is not None and r.chance(0.6):
 				qs = r.shuffle(qs + [redundant])
+			if not big and not bigdb and r.chance(0.012):
+				# a very long query list (more than any internal batch size)
+				qs = [r.randint(0, nP - 1) for _ in range(r.randint(2050, 2300))]
 			plan = _gen_plan(s, len(qs), Kmax)
 			call = {"kind": "annotate" if (onehot_pool and r.chance(0.6)) else "tomtom",
 				"queries": qs, "plan": plan,
@@ -307,7 +310,7 @@ class C13(runner.Check):
 			return torch.from_numpy(numpy.ascontiguousarray(a))
 		return a
 
-	def _sim_call(self, plan, fn, stale_pool=None, max_steps=20000):
+	def _sim_call(self, plan, fn, stale_pool=None, max_steps=60000):
 		from engines.threads import ThreadSim
 		sim = ThreadSim(plan, max_steps=max_steps, stale_pool=stale_pool)
 		self.tt._tomtom = self._st.bind(sim)
